@@ -168,7 +168,7 @@ GATES = {
 }
 for hname, (pcls, gate) in GATES.items():
     c = contract(E + hname).props('C03', 'C04', 'C08', 'C09')
-    uidf = {'unique_identifier': UID} if hname == '_process_mac' else \
+    uidf = {'_unique_identifier': UID} if hname == '_process_mac' else \
         {'_unique_identifier': ('lazyopt', ('obj', 'kmip.core.primitives.TextString', {'value': 'str'}))}
     c.args(self=ENGINE, payload=('payload', pcls, uidf))
     c.raises(KMIP_ERRORS)
